@@ -1,5 +1,5 @@
 #!/usr/bin/env python3
-"""tools/seed_matrix_wt.py [-j N] [prefix ...]   run every seed of seeded/<prefix>-Cxx (default: all agent* prefixes)
+"""tools/seed_matrix_wt.py [-j N] [prefix | prefix-Cxx ...]   run every seed of seeded/<prefix>-Cxx (default: all agent* prefixes)
 against its property's check in scratch worktrees (tools/selftest_wt.sh: /repo is left alone, N at a time), print a
 detection table and refresh detected_by / signatures in each meta.json."""
 import sys, os, re, json, glob, subprocess, queue, threading
@@ -10,7 +10,10 @@ if args[:1] == ['-j']:
 prefixes = args or sorted({os.path.basename(d).rsplit('-', 1)[0] for d in glob.glob('/verif/seeded/agent*-C*')}, key=lambda s: (len(s), s))
 work = []
 for pre in prefixes:
-    for d in sorted(glob.glob(f'/verif/seeded/{pre}-C*')):
+    dirs = sorted(glob.glob(f'/verif/seeded/{pre}-C*'))
+    if re.fullmatch(r'.+-C\d\d', pre) and os.path.isdir(f'/verif/seeded/{pre}'):
+        dirs, pre = [f'/verif/seeded/{pre}'], pre.rsplit('-', 1)[0]  # one seed, named in full
+    for d in dirs:
         cid = os.path.basename(d)[len(pre) + 1:]
         meta = {}
         try: meta = json.load(open(d + '/meta.json'))
